@@ -54,6 +54,11 @@ CLAIMED = {
             "pairs with symbolic relative translation through a symbolically executed polygon clipper; z3 decides exactness "
             "against independent oracles, bounds, symmetry, IoU3D<=BEV and invariance; the clipper is compared with real "
             "shapely on a witness of every path."),
+    "C12": ("4 C12", "crop_pointcloud, the box cropping helpers, SensingFrameResult and the sensing manager's area cropping are "
+            "executed on symbolic points (object arrays whose comparison masks are solver-decided forks) against boxes with "
+            "symbolic centre and exact rotation / polygonal prisms with symbolic offset; z3 decides on every path that strictly "
+            "inside points are reported, strictly outside points are not, the partition, scale monotonicity and the "
+            "detected / not detected / warning rule."),
 }
 NA = {
     "C16": "dataset loading goes through the nuScenes devkit and file I/O; a symbolic stand-in for the devkit would be the "
